@@ -519,3 +519,7 @@ MANIFEST_TEXT_EXTRA['C03'] = {
         'No pending theorem. Stop positions (OutputFull) are out of scope here (C04).'
     ),
 }
+
+# operations whose model side is the specification itself (see check: spec_ops)
+PROPS_EXTRA['C01']['spec_ops'] = ['specdec']
+PROPS_EXTRA['C03']['spec_ops'] = ['specenc']
